@@ -191,13 +191,19 @@ func (c *Case) ExecOpts() (opts []z.ExecOption, restore func()) { return c.execO
 
 // CtxValues: the WithCtxValue pairs this case passes besides those of its formatter mode
 func (c *Case) CtxValues() [][2]string {
-	switch c.ID % 5 {
+	switch c.ID % 8 {
 	case 1:
 		return [][2]string{{"k1", fmt.Sprintf("v%d", c.ID)}}
 	case 2:
 		return [][2]string{{"k1", "first"}, {"k2", "b"}, {"k1", "last"}}
 	case 3:
 		return [][2]string{{"k2", "only"}}
+	case 5:
+		// falsy values are values: the empty string, 0, false (Get returns exactly what was passed)
+		return [][2]string{{"k1", ""}, {"k2", "#0"}, {"k3", "!false"}}
+	case 6:
+		// a later empty value replaces an earlier one
+		return [][2]string{{"k1", "first"}, {"k1", ""}, {"k2", "~"}}
 	}
 	return nil
 }
@@ -568,6 +574,10 @@ func CtxValOf(spec string) any {
 	case strings.HasPrefix(spec, "#"):
 		n, _ := strconv.Atoi(spec[1:])
 		return n
+	case spec == "!false":
+		return false
+	case spec == "!true":
+		return true
 	}
 	return spec
 }
